@@ -565,6 +565,8 @@ RELATED = {
     "C07": ("C07", "C01"),
     "C02": ("C02", "C01", "C04"),
     "C09": ("C09", "C10"),
+    "C10": ("C10", "C09"),
+    "C08": ("C08", "C01", "C07"),
 }
 
 
@@ -624,6 +626,8 @@ def search_failing_input(pid, divergences, budget=40):
 TRACE_PREMISE = {
     # a strong pointer that tracing misses: a reachable value is destructed / its memory released
     "C01": lambda d: ("does not report" in d and "strong pointer" in d) or "is dead after collection" in d or "while strongly held" in d,
+    # ... and is reported dead (is_dead) / destructed although strongly reachable
+    "C07": lambda d: ("does not report" in d and "strong pointer" in d) or "is dead after collection" in d or "while strongly held" in d,
     # something reported that is not held strongly (a weak pointer reported as strong): retained garbage
     "C02": lambda d: "does not hold with that strength" in d or "was retained" in d or "was not reclaimed" in d,
     # a weak pointer that tracing misses: the shell it refers to is released under it
@@ -640,10 +644,17 @@ def trace_premise(chk, pid, seed):
         return
     bad_o = [(n, d) for (n, ok, d) in pr["obligations"] if not ok]
     bad_c = [(n, d) for (n, ok, d) in pr["correspondence"] if not ok]
-    chk.obligation("premise (C16 theorems over the regenerated impl table and dyn adapter): tracing reports exactly the pointers held",
-                   not bad_o and not bad_c and not pr["violations"],
-                   "\n".join("%s: %s" % (n, d[:600]) for n, d in (bad_o + bad_c)[:4]) +
+    # Charged to THIS property only when the C16 engine exhibits a concrete container value whose trace is wrong.  A C16
+    # proof that merely no longer checks (e.g. a harmless rewrite the translator does not understand) is C16's alarm to
+    # raise, not this property's: it is recorded as a note.
+    chk.obligation("premise (C16 on the current tree: recording tracer, survival, trait-object cases): no provided Collect impl is observed to "
+                   "miss or mis-report a pointer it holds", not pr["violations"],
                    "\n".join(v["desc"][:300] for v in pr["violations"][:4]))
+    if bad_o or bad_c:
+        chk.notes.append("the C16 theorems / model correspondence do not check on this tree (reported by C16's own check): " +
+                         "; ".join(n for n, _ in (bad_o + bad_c)[:4]))
+    chk.cov["trace_premise_c16"] = {"obligations_broken": [n for n, _ in bad_o], "correspondence_broken": [n for n, _ in bad_c],
+                                    "concrete_violations": len(pr["violations"])}
     chk.evaluations += pr.get("evaluations", 0)
     chk.trusted.append("C16 engine (translator-collect, coq-collect, harness-collect) for the trace-exactness premise")
     sel = TRACE_PREMISE[pid]
@@ -653,6 +664,7 @@ def trace_premise(chk, pid, seed):
             n += 1
             chk.violation("%s: %s [trace exactness fails for a provided impl: %s]" % (
                 pid, {"C01": "a strongly held pointer is not traced, so its target is collected while reachable",
+                      "C07": "a strongly held pointer is not traced, so its target is reported dead and destructed while reachable",
                       "C02": "a pointer that is not strongly held is traced as strong, so its target is retained",
                       "C05": "a weakly held pointer is not traced, so the block it refers to is released under it"}[pid], v["desc"][:300]),
                           v["replay"])
@@ -797,7 +809,8 @@ def run_core(chk, pid, tier, seed, extra_cover_prefixes=()):
     vm = res.get("vm_crosscheck") or {}
     chk.correspondence("extraction cross-check: vm_compute inside Coq reproduces the OCaml driver's output (%d scripts, %d lines)" % (
         vm.get("scripts", 0), vm.get("lines", 0)), vm.get("mismatches", 1) == 0 and vm.get("lines", 0) > 0, vm.get("detail", ""))
-    mine_v = [v for v in res["violations"] if v["property"] == pid]
+    # violations that match a recorded known finding (key set) do not explain a broken correspondence
+    mine_v = [v for v in res["violations"] if v["property"] == pid and v.get("key") is None]
     if mine and not mine_v:
         # the tie to the code is broken for this property: look for a concrete failing input -- first among the
         # scripts of this very run (a failure observed through the oracle of a related property, e.g. a stashed
